@@ -147,6 +147,9 @@ func (b *batch) Set(k, v []byte) {
 }
 func (b *batch) Delete(k []byte) { b.kvs = append(b.kvs, KV{Key: cp(k), Del: true}); b.size++ }
 func (b *batch) write() {
+	if len(b.kvs) == 0 {
+		return // nothing reaches the disk: not a write boundary
+	}
 	kvs := append([]KV(nil), b.kvs...)
 	b.db.rec.do(b.db.Name, kvs, true, func() {
 		for _, kv := range kvs {
